@@ -28,6 +28,18 @@ MAPS = [['a'], ['a', 'b?'], ['a', 'q', 'b?'], ['m', 'g', 'a'], ['q?', 'm?', 'c']
 
 def make_skeleton(spec):
     codes = spec['map']
+    if 'chain' in spec:
+        # a local declaration whose expansion passes through a top-level declaration of the same name (different binding)
+        half = max(1, len(codes) // 2)
+        A, B = codes[:half], codes[half:]
+        top = 'interface P %s\ntype Mid = P & {{}};\n' % rt.body(A) if spec['chain'] != 'alias-top' else 'type P = %s;\ntype Mid = (P);\n' % rt.body(A)
+        if spec['chain'] == 'iface':
+            local = 'interface P extends Mid %s' % rt.body(B)
+        else:
+            local = 'type P = Mid & %s;' % rt.body(B)
+        head = '// EXPECT %s\n' % json.dumps(rt.expect_of(codes)).replace('{', '{{').replace('}', '}}')
+        src = head + "import {{ defineComponent }} from 'vue';\n" + top + 'function scope() {{\n  ' + local + '\n  defineComponent((props: P) => () => null);\n}}\n'
+        return Skeleton('c16#%s|chain-%s|local' % (','.join(codes), spec['chain']), src, [], {'resolve_type': True}, tsx=True, meta={'family': 'c16/chain'})
     if 'composed' in spec:
         lab, decls, texpr, expected = rt.composed(codes, 2)[spec['composed']]
         call = 'export default defineComponent((props: %s) => () => null);' % texpr
@@ -90,6 +102,9 @@ def jobs(tier):
             out.append({'map': mp, 'enc': e[0]})
             if e[0] in ('alias', 'interface', 'merged', 'extends', 'intersection', 'indexed', 'after-interface', 'partial', 'pick') and (tier != 'quick' or mp in (MAPS[1], MAPS[2])):
                 out.append({'map': mp, 'enc': e[0], 'scope': 'local'})
+    for mp in (MAPS[1], MAPS[2], MAPS[3]) if tier == 'quick' else MAPS[1:]:
+        for ch in ('iface', 'alias', 'alias-top'):
+            out.append({'map': mp, 'chain': ch})
     for mp in (MAPS[1], MAPS[2]) if tier == 'quick' else MAPS[:5]:
         for enc in ('interface', 'alias', 'intersection') if tier == 'quick' else [e[0] for e in rt.encodings(mp) if not e[0].startswith(('after', 'merged-after'))]:
             if enc not in [e[0] for e in rt.encodings(mp)]:
